@@ -168,17 +168,6 @@ impl SearchFilters {
     }
 
     pub fn insert_nand(self, filter: Filter) -> Self {
-        let mut updated_fitler = self.nor_filters;
-        updated_fitler.insert(std::mem::discriminant(&filter), filter);
-
-        Self {
-            filters: self.filters,
-            nand_filters: self.nand_filters,
-            nor_filters: updated_fitler,
-        }
-    }
-
-    pub fn insert_nor(self, filter: Filter) -> Self {
         let mut updated_fitler = self.nand_filters;
         updated_fitler.insert(std::mem::discriminant(&filter), filter);
 
@@ -186,6 +175,17 @@ impl SearchFilters {
             filters: self.filters,
             nand_filters: updated_fitler,
             nor_filters: self.nor_filters,
+        }
+    }
+
+    pub fn insert_nor(self, filter: Filter) -> Self {
+        let mut updated_fitler = self.nor_filters;
+        updated_fitler.insert(std::mem::discriminant(&filter), filter);
+
+        Self {
+            filters: self.filters,
+            nand_filters: self.nand_filters,
+            nor_filters: updated_fitler,
         }
     }
 
